@@ -27,7 +27,8 @@ RULE = ("template-generated datagrams (reference-encoded) plus per datagram ~12 
         "header, eager). distinct_nontrivial = distinct (datagram, history) pairs where the body was parsed or a parse "
         "failed"
         ". Round-5 additions: every other template visit is repeated with codec objects built on a caller-supplied template next to the stock ones; text-vs-binary scope from the harness's own naming rule"
-        ". Rounds 6-7: histories 'flip' (ZEROCODED flipped and flipped back - refused when the body does not parse) and 'orphaned' (the deserializer is garbage collected before the body is looked at; one generated datagram in eight); text that looks like something else (byte-order mark first, numbers, literals, message names)")
+        ". Rounds 6-7: histories 'flip' (ZEROCODED flipped and flipped back - refused when the body does not parse) and 'orphaned' (the deserializer is garbage collected before the body is looked at; one generated datagram in eight); text that looks like something else (byte-order mark first, numbers, literals, message names)"
+        ". Round 8: earlier decoded copies edited in place (one datagram in three) before the next decode of the same bytes")
 ASSUMPTIONS = [
     "canonical zero-coding = exactly what a maximal-run (255-split) encoder emits for the datagram's expansion",
     "datagrams whose decoded message contains a NaN float are excluded from the equality clauses",
